@@ -1,5 +1,7 @@
 (* C06 — the TypedDict size limit is honoured end to end; zero disables TypedDicts. *)
 From MT Require Import Types Infer TypesFacts TdBounded.
+From MT Require Import Types Infer Rewrite RewriteTrigger Render TypesFacts TdBounded Encode EncodeRoundtrip Pipeline
+                       EncodeExamples TdBoundedE2EStore TdBoundedE2ERewrite TdBoundedE2EStubs TdBoundedE2E.
 
 (* limit 0: no TypedDict anywhere in the inferred type *)
 Theorem k0_no_typeddict :
@@ -28,6 +30,134 @@ Theorem td_from_str_dicts_only :
                 /\ List.length kvs <= k /\ o = [] /\ map fst r = map strkey kvs.
 Proof. exact td_only_from_str_dicts. Qed.
 Print Assumptions td_from_str_dicts_only.
+
+(* ---- the store ---- *)
+(* the relation a store round trip guarantees (C08: corrb) preserves the size of every TypedDict node; wf_ty
+   (TypedDict field names distinct) is needed: TdBoundedE2EStore.ex_bd_corrb_needs_wf *)
+Theorem td_bounded_corrb :
+  forall k a b, wf_ty a -> corrb a b = true -> td_boundedb k a = td_boundedb k b.
+Proof. exact bd_corrb. Qed.
+Print Assumptions td_bounded_corrb.
+
+Theorem has_td_corr : forall a b, corrb a b = true -> has_td a = has_td b.
+Proof. exact has_td_corrb. Qed.
+Print Assumptions has_td_corr.
+
+(* under C08's premises, what is decoded from the stored JSON is bounded when what was encoded is *)
+Theorem td_survives_store :
+  forall (cname : cls -> string * string) (site : string) (env : string -> string -> lookup)
+         (hidden : string -> option cls) k t j t',
+    typing_ok env -> inferable t /\ Forall (importable cname env hidden) (classes t) ->
+    td_boundedb k t = true ->
+    type_to_json cname site t = Ok j -> type_from_json env hidden j = Ok t' ->
+    td_boundedb k t' = true.
+Proof. exact TdBoundedE2EStore.td_survives_store. Qed.
+Print Assumptions td_survives_store.
+
+(* a TypedDict-free type is stored as JSON without an "is_typed_dict" object and decodes TypedDict-free *)
+Theorem no_td_survives_store :
+  forall (cname : cls -> string * string) (site : string) (env : string -> string -> lookup)
+         (hidden : string -> option cls) t j t',
+    typing_ok env -> inferable t /\ Forall (importable cname env hidden) (classes t) ->
+    has_td t = false ->
+    type_to_json cname site t = Ok j -> type_from_json env hidden j = Ok t' ->
+    json_has_td j = false /\ has_td t' = false.
+Proof. exact TdBoundedE2EStore.no_td_survives_store. Qed.
+Print Assumptions no_td_survives_store.
+
+(* ---- the rewriters neither create TypedDicts nor enlarge them ---- *)
+Theorem td_bounded_rewrite :
+  forall h bt k r t, td_boundedb k t = true -> td_boundedb k (rw h bt r t) = true.
+Proof. exact rw_bd. Qed.
+Print Assumptions td_bounded_rewrite.
+
+Theorem td_bounded_rewrite_chain :
+  forall h bt k rs t, td_boundedb k t = true -> td_boundedb k (rw_chain h bt rs t) = true.
+Proof. exact rw_chain_bd. Qed.
+Print Assumptions td_bounded_rewrite_chain.
+
+Theorem no_td_rewrite : forall h bt r t, has_td t = false -> has_td (rw h bt r t) = false.
+Proof. exact rw_no_td. Qed.
+Print Assumptions no_td_rewrite.
+
+Theorem no_td_rewrite_chain : forall h bt rs t, has_td t = false -> has_td (rw_chain h bt rs t) = false.
+Proof. exact rw_chain_no_td. Qed.
+Print Assumptions no_td_rewrite_chain.
+
+(* ---- the TypedDict classes rendered into the stub ---- *)
+Theorem td_bounded_stub_classes :
+  forall k t hint, td_boundedb k t = true ->
+    td_boundedb k (fst (rtd t hint)) = true /\ stubs_ok k (snd (rtd t hint)).
+Proof. exact rtd_bounded. Qed.
+Print Assumptions td_bounded_stub_classes.
+
+Theorem td_bounded_stub_classes_by_name :
+  forall k cs, stubs_ok k cs -> NoDup (map cs_name cs) -> cstubs_boundedb k cs = true.
+Proof. exact stubs_ok_by_name. Qed.
+Print Assumptions td_bounded_stub_classes_by_name.
+
+Theorem no_td_no_stub_class :
+  forall t hint, has_td t = false ->
+    snd (rtd t hint) = [] /\ has_td (fst (rtd t hint)) = false /\ (normal t = true -> fst (rtd t hint) = t).
+Proof. exact rtd_no_td. Qed.
+Print Assumptions no_td_no_stub_class.
+
+(* ---- end to end ---- *)
+Theorem k_limit_end_to_end :
+  forall (cname : cls -> string * string) (site : string) (env : string -> string -> lookup)
+         (hidden : string -> option cls) (h : hierarchy) (bt : bases_table)
+         k rs (vss : list (list value)) (ts ds stored : list ty) T hint,
+    typing_ok env ->
+    inferred k vss ts ->
+    Forall (fun t => Forall (importable cname env hidden) (classes t)) ts ->
+    mapM (store_rt cname site env hidden) ts = Some ds ->
+    incl stored ds ->
+    shrink_top k stored = Some T ->
+    let T' := rw_chain h bt rs T in
+    let out := rtd T' hint in
+    forallb (td_boundedb k) ts = true
+    /\ forallb (td_boundedb k) ds = true
+    /\ td_boundedb k T = true
+    /\ td_boundedb k T' = true
+    /\ td_boundedb k (fst out) = true
+    /\ stubs_ok k (snd out)
+    /\ (NoDup (map cs_name (snd out)) -> cstubs_boundedb k (snd out) = true).
+Proof. exact k_limit_e2e. Qed.
+Print Assumptions k_limit_end_to_end.
+
+Theorem k0_end_to_end :
+  forall (cname : cls -> string * string) (site : string) (env : string -> string -> lookup)
+         (hidden : string -> option cls) (h : hierarchy) (bt : bases_table)
+         rs (vss : list (list value)) (ts ds stored : list ty) T hint,
+    typing_ok env ->
+    inferred 0 vss ts ->
+    Forall (fun t => Forall (importable cname env hidden) (classes t)) ts ->
+    mapM (store_rt cname site env hidden) ts = Some ds ->
+    incl stored ds ->
+    shrink_top 0 stored = Some T ->
+    let T' := rw_chain h bt rs T in
+    let out := rtd T' hint in
+    existsb has_td ts = false
+    /\ (forall t j, In t ts -> type_to_json cname site t = Ok j -> json_has_td j = false)
+    /\ existsb has_td ds = false
+    /\ has_td T = false
+    /\ has_td T' = false
+    /\ has_td (fst out) = false
+    /\ snd out = []
+    /\ (forallb normal stored = true -> out = (T', [])).
+Proof. exact k0_e2e. Qed.
+Print Assumptions k0_end_to_end.
+
+Example ex_c06_e2e_nonvacuous :
+  inferred 2 [[ex_v1]; [ex_v2]] ex_ts
+  /\ mapM (store_rt ex_cn ex_site ex_ev ex_hd) ex_ts = Some ex_ts
+  /\ shrink_top 2 (ex_ts ++ ex_ts) = Some ex_T
+  /\ cstubs_boundedb 2 (snd (rtd (rw_chain [] [] ex_rs ex_T) "arg"%string)) = true
+  /\ cstubs_boundedb 1 (snd (rtd (rw_chain [] [] ex_rs ex_T) "arg"%string)) = false.
+Proof.
+  destruct ex_k_limit_e2e as [_ [H1 [_ [H2 [_ [H3 H4]]]]]]. cbv zeta in H4.
+  destruct H4 as [_ [_ [_ [_ [_ [H5 H6]]]]]]. repeat split; assumption.
+Qed.
 
 Example ex_c06_nonvacuous :
   let vs := [VDict [(VStr "a", VAtom cInt 1); (VStr "b", VStr "x"); (VStr "c", VAtom cNone 0)];
